@@ -29,6 +29,7 @@ HistFails(c, s) ==
 
 Fails(c, s) ==
   CASE c.kind = "eval"    -> C01EvalFails(c)
+    [] c.kind = "evaldeep" -> C01DeepFails(c)
     [] c.kind = "optable" -> C01OpTableFails(c)
     [] c.kind = "ttcode"  -> C01TTCodeFails(c)
     [] c.kind = "pattern" -> C01PatternFails(c)
@@ -58,6 +59,7 @@ Fails(c, s) ==
     [] c.kind = "pass"    -> IF c.prop = "C03" THEN C03Fails(c) ELSE C18Fails(c)
     [] c.kind = "trav"    -> C20TravFails(c)
     [] c.kind = "topsort" -> C20TopFails(c)
+    [] c.kind = "travdeep" -> C20DeepFails(c)
     [] c.kind = "cycle"   -> C20CycleFails(c)
     [] c.kind = "draw"    -> C14DrawFails(c)
     [] c.kind = "same"    -> FailSet(<< <<c.what, c.a = c.b /\ c.exc = "">> >>)
@@ -67,6 +69,7 @@ Drift(c, s) == IF c.kind = "hist" THEN HistDrift(c, s)
                ELSE IF c.kind = "lookup" THEN C17LookupDrift(c)
                ELSE IF c.kind = "cnf" THEN C05CnfDrift(c) \cup C05EncoderDrift(c)
                ELSE IF c.kind = "cnfdeep" THEN C05DeepDrift(c)
+               ELSE IF c.kind = "evaldeep" THEN C01DeepDrift(c)
                ELSE IF c.kind = "arith" THEN ArithDrift(c)
                ELSE IF c.kind = "minimize" THEN C04ConeDrift(c) ELSE {}
 
